@@ -12,7 +12,7 @@ filter="$*"
 for d in seeded/*/; do
   name=$(basename "$d")
   if [ -n "$filter" ]; then case " $filter " in *" ${name:0:3} "*) ;; *) continue;; esac; fi
-  checks=$(python3 -c "import json;m=json.load(open('$d/meta.json'));print(' '.join(sorted(set([m['property']]+list(m['detected_by'].keys())))))")
+  checks=$(python3 -c "import json,re;m=json.load(open('$d/meta.json'));print(' '.join(sorted(set([m['property']]+[k.split()[0] for k in m['detected_by'].keys() if re.match(r'C[0-9][0-9]', k)]))))")
   if ! git -C /repo apply --check "/verif/$d/patch.diff" 2>/dev/null; then echo "$name: PATCH DOES NOT APPLY"; continue; fi
   git -C /repo apply "/verif/$d/patch.diff"
   for c in $checks; do
